@@ -279,6 +279,21 @@ func judgeCell(r *core.Run, c Cell) {
 
 // --- signing side ---------------------------------------------------------------------
 
+// lyingLocal implements signature.LocalSigner with a KeySpec of its own choosing.
+type lyingLocal struct {
+	key   *pki.Key
+	spec  signature.KeySpec
+	chain []*x509.Certificate
+}
+
+func (l lyingLocal) Sign(payload []byte) ([]byte, []*x509.Certificate, error) {
+	sig, err := sims.RawSign(l.key, l.spec.SignatureAlgorithm(), payload)
+	return sig, l.chain, err
+}
+func (l lyingLocal) KeySpec() (signature.KeySpec, error)            { return l.spec, nil }
+func (l lyingLocal) CertificateChain() ([]*x509.Certificate, error) { return l.chain, nil }
+func (l lyingLocal) PrivateKey() crypto.PrivateKey                  { return l.key.Priv }
+
 func usedMark(kinds []string) []string {
 	out := make([]string, len(kinds))
 	for i, k := range kinds {
@@ -461,6 +476,68 @@ func signCells(r *core.Run) {
 					}
 					r.Count("changing-keyspec-accepted-consistent", 1)
 				}
+			}
+		}
+	}
+	// signers that are not what the library's own constructors build:
+	// (a) an external signer whose leaf certificate OBJECT is not self-consistent
+	//     (parsed fields of one certificate, Raw bytes of another);
+	// (b) an implementation of the exported LocalSigner interface whose KeySpec()
+	//     does not fit its own key and leaf.
+	// Whatever is produced must declare the algorithm of the leaf that is IN the envelope.
+	for _, mt := range []string{sims.JWS, sims.COSE} {
+		for _, pair := range [][2]string{{"rsa2048", "rsa3072"}, {"rsa3072", "rsa4096"}, {"rsa2048", "rsa4096"}, {"p256", "p384"}, {"p384", "p521"}} {
+			small, big := chainFor(pair[0]), chainFor(pair[1])
+			for _, variant := range []string{"inconsistent-certificate-object", "local-signer-implementation-with-other-keyspec"} {
+				r.Eval(1)
+				desc := fmt.Sprintf("Sign(%s, %s: declares %s, key and serialised leaf %s)", mtName(mt), variant, pair[1], pair[0])
+				var signer signature.Signer
+				if variant == "inconsistent-certificate-object" {
+					fake := *big.Certs[0]
+					fake.Raw = small.Certs[0].Raw
+					signer = &sims.RemoteSigner{Key: small.Keys[0], Spec: sims.KeySpecOf(pair[1]), Chain: append([]*x509.Certificate{&fake}, small.Certs[1:]...)}
+				} else {
+					signer = lyingLocal{key: small.Keys[0], spec: sims.KeySpecOf(pair[1]), chain: small.Certs}
+				}
+				env, _ := signature.NewEnvelope(mt)
+				var raw []byte
+				var err error
+				if p := core.Guard(func() { raw, err = env.Sign(sims.BaseRequest(mt, signer, signature.SigningSchemeX509)) }); p != nil {
+					r.Violation("odd-signer-panic", desc+" panicked: "+p.Value, desc)
+					continue
+				}
+				r.Nontrivial(desc)
+				if err != nil || raw == nil {
+					r.Count("odd-signer-rejected", 1)
+					continue
+				}
+				// accepted: then the envelope must be on the table's diagonal
+				declared, leafKind := "", ""
+				var x5 [][]byte
+				if mt == sims.JWS {
+					d, _ := envcodec.DecodeJWS(raw)
+					declared, _ = d.HeaderString(envcodec.JAlg)
+					x5 = d.Chain
+				} else {
+					d, _ := envcodec.DecodeCOSE(raw)
+					id, _ := d.HeaderInt(envcodec.CAlg)
+					if a := envcodec.AlgByCOSE(id); a != nil {
+						declared = a.Name
+					}
+					x5 = d.Chain
+				}
+				if len(x5) > 0 {
+					if leaf, perr := x509.ParseCertificate(x5[0]); perr == nil {
+						if a := envcodec.KeyAlg(leaf.PublicKey); a != nil {
+							leafKind = a.Name
+						}
+					}
+				}
+				if declared == "" || declared != leafKind {
+					r.Violation("odd-signer-envelope-off-the-diagonal:"+mtName(mt)+":"+variant, fmt.Sprintf("%s produced an envelope declaring %q over a leaf whose key dictates %q", desc, declared, leafKind), desc)
+					continue
+				}
+				r.Count("odd-signer-accepted-consistent", 1)
 			}
 		}
 	}
